@@ -167,6 +167,10 @@ inline void crash_signal(int sig) {
     signal(sig, SIG_DFL);
     raise(sig);
 }
+inline double& shrink_budget_s() {
+    static double t = 120;
+    return t;
+}
 inline int& case_timeout_s() {
     static int t = 600;
     return t;
@@ -219,8 +223,11 @@ Sub make_sub(const std::string& name, std::function<rc::Gen<Case>()> gen,
         md.id = name;
         md.description = name;
         auto g = gen();
+        std::chrono::steady_clock::time_point first_failure;
         auto res = rc::detail::checkTestable(
             [&]() {
+                // shrinking an expensive case may take very long: after the budget every further candidate is declined
+                if (ctx.frozen && std::chrono::duration<double>(std::chrono::steady_clock::now() - first_failure).count() > shrink_budget_s()) return;
                 const Case c = *g;
                 Writer w;
                 c.write(w);
@@ -240,6 +247,7 @@ Sub make_sub(const std::string& name, std::function<rc::Gen<Case>()> gen,
                         ctx.samples.push_back(ctx.cur_sample);
                 }
                 if (!msg.empty()) {
+                    if (!ctx.frozen) first_failure = std::chrono::steady_clock::now();
                     ctx.frozen = true;  // everything after the first failure is shrinking
                     last_fail_text = text;
                     last_fail_msg = msg;
@@ -325,6 +333,7 @@ inline int engine_main(int argc, char** argv, const std::string& name, const std
         else if (a == "--sub") only.insert(next());
         else if (a == "--replay") replay = next();
         else if (a == "--case-timeout-s") case_timeout_s() = atoi(next().c_str());
+        else if (a == "--shrink-budget-s") shrink_budget_s() = atof(next().c_str());
         else {
             fprintf(stderr, "unknown argument %s\n", a.c_str());
             return 4;
